@@ -166,10 +166,12 @@ def ref_integral(spec, field_base: np.ndarray) -> np.ndarray:
 def make_data(spec, op, fid, positive=False, mult=None, form=None):
     mult = mult if mult is not None else op["m"]
     payload = op.get("payload", {"kind": "scalar"})
-    fb = _base_field(fid, spec["base"], _tail(payload), positive, float(op.get("scale", 1.0)))
     dt = op.get("dtype", "float64")
+    fb = _base_field(fid, spec["base"], _tail(payload), positive, float(op.get("scale", 1.0)) if dt != "int64" else 1.0)
     if dt == "int64":
-        fb = np.round(fb * 64)  # integer-valued field
+        fb = np.round(fb * 64)  # integer-valued field (not scaled: it would round to zero)
+    if dt in ("float16", "float32"):
+        fb = fb.astype(dt).astype(np.float64)  # the reference integrates the values the data really carry
     if op.get("nan"):
         fb = fb.copy()
         fb.ravel()[0] = np.nan if op["nan"] == "nan" else np.inf
@@ -284,6 +286,13 @@ class C03Engine(Engine):
     def fixed_cases(self, tier):
         cases = super().fixed_cases(tier)
         # sizes that random small inputs never reach: millions of voxels, float32 series (accumulation in low precision)
+        # refinement factors for which OpenCV's nearest-source index is off by one (49, 98, 103, ...)
+        for fac in (49, 98, 103):
+            cases.append({"engine": self.name, "seed": -2, "objects": {"g0": {"cls": "ExtrudedGeometry", "space_dim": 2, "base": [2, 1],
+                          "r": [1, 1], "voxel_size": [1.0, 1.0], "size_by": "dimensions", "weight": {"kind": "array", "id": 7}}},
+                          "clients": {"c0": [{"op": "integrate", "obj": "g0", "m": [fac, fac], "field": 3, "payload": {"kind": "scalar"},
+                                              "form": "array", "dtype": "float64"}]},
+                          "schedule": ["c0"], "faults": [], "env": []})
         for cls, payload in (("Geometry", {"kind": "series", "t": 2}), ("ExtrudedGeometry", {"kind": "vector", "n": 2})):
             obj = {"cls": cls, "space_dim": 2, "base": [3, 4], "r": [150, 150], "voxel_size": [0.01, 0.02], "size_by": "dimensions"}
             if cls != "Geometry":
@@ -377,7 +386,7 @@ class C03Engine(Engine):
             op["img_dims"] = rng.choice(["unit", "other"])
         if kind == "integrate":
             op.update(field=rng.randint(0, 9999), payload=self._gen_payload(rng),
-                      form=rng.choice(["array", "image"]), dtype=rng.choice(["float64", "float64", "float32", "int64"]))
+                      form=rng.choice(["array", "image"]), dtype=rng.choice(["float64", "float64", "float32", "int64", "float16"]))
             if rng.random() < 0.15:
                 op["layout"] = rng.choice(["fortran", "strided", "readonly"])
             if rng.random() < 0.04:
@@ -386,7 +395,7 @@ class C03Engine(Engine):
             op.update(x=rng.randint(0, 9999), y=rng.randint(0, 9999), a=rng.choice([2.0, -0.5, 3.25]),
                       b=rng.choice([1.0, 0.75, -2.0]), payload=self._gen_payload(rng), form="array")
         else:
-            op.update(img=rng.randint(0, 9999), ref=rng.randint(0, 9999),
+            op.update(img=rng.randint(0, 9999), ref=rng.randint(0, 9999), dtype=rng.choice(["float64", "float64", "float32", "int64"]),
                       m_ref=self._gen_mult(rng, spec, rng.choice(["native", "coarser", "finer"])),
                       payload=rng.choice([{"kind": "scalar"}, {"kind": "scalar"}, {"kind": "series", "t": rng.randint(1, 3)}]))
             if rng.random() < 0.5:
@@ -562,21 +571,18 @@ class C03Engine(Engine):
                                 object=spec)
                     continue
                 # V: reference value (integer factors per axis only)
-                # The value oracle covers the resolutions the statement names: native, coarser, finer (integer
-                # factors, all axes in the same direction).  'mixed' (finer along one axis, coarser along another)
-                # and non-integer ratios only perturb the cache: OpenCV's INTER_AREA is conservative for pure
-                # down-sampling and integer up-sampling only.
+                # The value oracle covers integer refinement / coarsening factors per axis, including 'mixed' (finer
+                # along one axis, coarser along another; the library resizes axis by axis since D21).  Non-integer
+                # ratios only perturb the cache.
                 classes = [res_class(m, spec["r"]) for m in mults]
-                if all(k in ("native", "coarser", "finer") for k in classes):
+                if all(k in ("native", "coarser", "finer", "mixed") for k in classes):
                     ref = ref_integral(spec, fb)
                     resized = vk == "array" and any(list(m) != list(spec["r"]) for m in mults)
-                    # float32 data times a scalar volume is evaluated by numpy in float32
-                    f32 = op.get("dtype", "float64") == "float32"
-                    tol = (1e-5 if (resized or f32) else 1e-11) * scale
-                    if f32 and fb.size and np.prod(op["m"]) * fb.size > 10**6:
-                        tol = 1e-4 * scale  # float32 accumulation over millions of voxels
+                    # low-precision data are integrated in double precision (D26): no allowance for float16 / float32
+                    tol = (1e-5 if resized else 1e-11) * scale
                     if op["op"] == "normalize":
-                        tol = max(tol, 1e-9 * scale)
+                        # the rescaled image keeps the dtype of the input image: float32 pixels carry 6e-8 relative error
+                        tol = max(tol, (1e-5 if op.get("dtype") == "float32" else 1e-9) * scale)
                     if not _close(val, ref, tol):
                         out.violate("C03.V", culprit, step, got=val, reference=ref, op=op, object=spec)
                         continue
@@ -587,7 +593,7 @@ class C03Engine(Engine):
                         out.violate("C03.L", culprit, step, ix=ix, iy=iy, iz=iz, op=op)
                 if "norm" in aux:
                     i_out, i_ref = aux["norm"]
-                    if not _close(i_out, i_ref, 1e-9 * float(np.sum(np.abs(i_ref))) + 1e-300):
+                    if not _close(i_out, i_ref, (1e-5 if op.get("dtype") == "float32" else 1e-9) * float(np.sum(np.abs(i_ref))) + 1e-300):
                         out.violate("C03.N", culprit, step, normalised=i_out, reference=i_ref, op=op)
         finally:
             integ_mod.cv2 = cv2
